@@ -321,7 +321,7 @@ def eq_conds(p, ret):
 
 
 def check_eq(res, facts):
-    rule = res.rule("R-EQ", "projective equality compares cross-multiplied coordinates; is_on_curve tests the curve equation", 4)
+    rule = res.rule("R-EQ", "projective equality compares cross-multiplied coordinates; is_on_curve tests the curve equation", 6)
     # SW Projective == Projective
     for head, name, ncoord in ((SWP, "SW", 3), (TEP, "TE", 4)):
         eqs = [f for f in find(facts, "eq", head, "core::cmp::PartialEq") if "Projective" in ((f.impl or {}).get("trait_args") or ["", ""])[1]]
@@ -351,6 +351,61 @@ def check_eq(res, facts):
                 break
         if not found:
             rule.undecided("%s::Projective::eq" % name, "no path with two coordinate comparisons found", eqs[0].loc)
+    # identity predicates on projective representatives
+    for head, name in ((SWP, "SW"), (TEP, "TE")):
+        fns = find(facts, "is_zero", head, "num_traits::identities::Zero")
+        key = "%s::Projective::is_zero" % name
+        if not fns:
+            rule.bad(key, "kernel not found")
+            continue
+        if name == "SW":
+            argv = sw_proj("p")
+        else:
+            # free T here: the predicate must test it
+            argv = SX.Obj(adt=TEP, fields={0: SX.Obj(name="p.x"), 1: SX.Obj(name="p.y"), 2: SX.Obj(name="p.t"), 3: SX.Obj(name="p.z")})
+        ex, paths = run_paths(facts, fns[0], [ref(argv)], models(1))
+        x, y, t, z = V("p.x"), V("p.y"), V("p.t"), V("p.z")
+        true_paths = []
+        for p in paths:
+            if not decided(p):
+                continue
+            r = p.ret
+            if r is False:
+                continue
+            conds = [c for c in p.assume if not c.neg] + ([r] if isinstance(r, SX.Cond) and not r.neg else [])
+            subst = dict(p.st.subst)
+            true_paths.append((conds, subst, p))
+        if not true_paths:
+            rule.undecided(key, "no path returning true found", fns[0].loc)
+            continue
+        okk = True
+        why = ""
+        for conds, subst, p in true_paths:
+            zeroed = {v for v, pol in subst.items() if pol.is_zero()}
+            eqs = [(c.a - c.b) for c in conds if c.kind == "eq" and isinstance(c.a, Q) and isinstance(c.b, Q)]
+            eqs += [c.a for c in conds if c.kind == "zero" and isinstance(c.a, Q)]
+            for e in eqs:
+                if e.is_poly() and len(e.n.t) == 1:
+                    (m, cf), = e.n.t.items()
+                    if len(m) == 1 and m[0][1] == 1:
+                        zeroed.add(m[0][0])
+            for v, pol in subst.items():
+                if not pol.is_zero():
+                    eqs.append(Q.var(v) - Q(pol))
+            if name == "SW":
+                if "p.z" not in zeroed:
+                    okk, why = False, "answers true without Z = 0"
+            else:
+                need_zero = {"p.x", "p.t"}
+                has_yz = any(e.equals(apply_subst(y - z, p.st)) or e.equals(apply_subst(z - y, p.st)) or e.equals(y - z) or e.equals(z - y) for e in eqs)
+                if not need_zero <= zeroed:
+                    okk, why = False, "answers true without testing %s = 0" % sorted(need_zero - zeroed)
+                elif not has_yz:
+                    okk, why = False, "answers true without testing Y = Z: every representative (0 : -s : 0 : s) of the order-two point (0, -1) is reported as the identity"
+        if okk:
+            rule.ok(key, "identity iff %s" % ("Z = 0" if name == "SW" else "X = 0, T = 0, Y = Z"), fns[0].loc)
+        else:
+            rule.bad(key, why, fns[0].loc)
     # is_on_curve
     for head, name, mk in ((SWA, "SW", lambda: sw_aff("p")), (TEA, "TE", lambda: te_aff("p"))):
         fns = find(facts, "is_on_curve", head)
